@@ -102,8 +102,13 @@ def needs_calls(fn):
 def call_clause(fn, argv):
     if not callable(fn):
         return fn
-    names = list(inspect.signature(fn).parameters)
-    return fn(**{n: argv[n] for n in names})
+    kw = {}
+    for n, prm in inspect.signature(fn).parameters.items():
+        if n in argv:
+            kw[n] = argv[n]
+        elif prm.default is inspect.Parameter.empty:
+            raise KeyError(n)
+    return fn(**kw)
 
 
 def call_target(c, fn, argv):
